@@ -30,6 +30,8 @@ CONSTANTS
   NEnv,        \* number of environments
   Lits,        \* sequence of [nm |-> STRING, v |-> C]: literal scalars available as operands
   Zeros,       \* sequence of shapes: zero tensors available as operands (ufl.zero(shape))
+  ZeroFi,      \* sequence of free-index lists <<<<i, dim>>, ...>> (sorted by i): scalar zeros that carry free
+               \* indices, as 0*u[i]*w[j] produces them (Zero((), (i, j), (dim_i, dim_j)))
   IdxPool,     \* sequence of index names (integers >= 10), reused across scopes
   OpSet,       \* set of enabled operation names
   MaxNodes,    \* maximal number of constructed (non-initial) nodes
@@ -104,10 +106,13 @@ LitNode(k) == Node("lit", << >>, << >>, Lits[k].nm, << >>, << >>,
                    [e \in Envs |-> (<< >> :> Lits[k].v)])
 ZeroNode(k) == Node("zero", << >>, Zeros[k], "", Zeros[k], << >>,
                     [e \in Envs |-> [t \in Tup(Zeros[k]) |-> C0]])
+ZeroFiNode(k) == Node("zerofi", << >>, << >>, "", << >>, ZeroFi[k],
+                      [e \in Envs |-> [t \in Tup(FiDims(ZeroFi[k])) |-> C0]])
 InitStore == [k \in 1..Len(Terminals) |-> TermNode(k)]
              \o [k \in 1..Len(Lits) |-> LitNode(k)]
              \o [k \in 1..Len(Zeros) |-> ZeroNode(k)]
-NInit == Len(Terminals) + Len(Lits) + Len(Zeros)
+             \o [k \in 1..Len(ZeroFi) |-> ZeroFiNode(k)]
+NInit == Len(Terminals) + Len(Lits) + Len(Zeros) + Len(ZeroFi)
 
 Init == store = InitStore
 
@@ -184,6 +189,9 @@ DoImag(a) == Un("imag", a, CIm)
 \* sqrt and sign act on scalars (mathfunctions.py: MathFunction requires a true scalar)
 DoSqrt(a) == TrueScalar(store[a]) /\ Un("sqrt", a, CSqrt)
 DoSign(a) == TrueScalar(store[a]) /\ Un("sign", a, CSignum)
+\* exp, ln, sin, ... (mathfunctions.py); f is the operation name
+DoMath(f, a) == TrueScalar(store[a]) /\ Un(f, a, LAMBDA z : CMath(f, z))
+MathOps == {"exp", "ln", "sin", "cos", "tan", "sinh", "cosh", "tanh", "asin", "atan"}
 
 -----------------------------------------------------------------------------
 (* Indexing  a[mi]  (exproperators._getitem).  Entries of mi: 0..9 a fixed index, >= 10 an   *)
@@ -529,6 +537,7 @@ Next ==
        \/ "imag" \in CurOps /\ DoImag(a)
        \/ "sqrt" \in CurOps /\ DoSqrt(a)
        \/ "sign" \in CurOps /\ DoSign(a)
+       \/ \E f \in MathOps \cap CurOps : DoMath(f, a)
        \/ "perp" \in CurOps /\ DoPerp(a)
        \/ "transpose" \in CurOps /\ DoTranspose(a)
        \/ "tr" \in CurOps /\ DoTr(a)
